@@ -29,7 +29,11 @@ func vfH_C13_execute() {
 	vfAssume(nl <= 16)
 	frame[70], frame[71], frame[72], frame[73] = byte(nl), byte(nl>>8), byte(nl>>16), byte(nl>>24)
 	cut := vfRange("cut", 0, 6)
-	frame = frame[:len(frame)-cut]
+	// exactly as long as it claims, with no spare capacity behind it (the connection's frame reader
+	// allocates length + 4 bytes): reslicing past the end must not be hidden by a roomy backing array
+	short := make([]byte, len(frame)-cut)
+	copy(short, frame)
+	frame = short
 	ol := len(frame) - 4
 	frame[0], frame[1], frame[2], frame[3] = byte(ol), byte(ol>>8), byte(ol>>16), byte(ol>>24)
 	c := env.newCmd(protocol.COMMAND_LOCK, vfKey(1), vfLockId(1))
